@@ -220,9 +220,11 @@ impl<'a> Session<'a> {
     pub fn set_phase(&mut self, ph: f32) {
         let (kind, lo, hi) = if ph.is_finite() {
             let fr = ph.abs() % 1.0; // exact in f32
+            // the counter may be scaled by its range 2^w or by its largest value 2^w - 1 (as built)
             let mask = ((1u64 << self.w) - 1) as f32;
-            let x = (mask as f64) * (fr as f64); // exact in f64
-            ("num", x.floor() as i64, x.ceil() as i64)
+            let lo = (mask as f64) * (fr as f64); // exact in f64
+            let hi = ((1u64 << self.w) as f64) * (fr as f64);
+            ("num", lo.floor() as i64, hi.ceil() as i64)
         } else {
             ("nonfinite", 0, 0)
         };
@@ -469,8 +471,11 @@ impl crate::graphrun::Target for GraphTarget {
                         extra = format!(",\"arg\":{},\"il\":{},\"big\":{}", key(f), il, big);
                     }
                     "phase" => {
-                        let mask = ((1u64 << w) - 1) as f32;
-                        let ph = (op["a"].as_i64().unwrap() as f32 + 0.5) / mask;
+                        // a phase that lands on counter value a whether the implementation scales by
+                        // 2^w - 1 (as built) or by 2^w: the middle of [a / (2^w - 1), (a + 1) / 2^w)
+                        let a = op["a"].as_i64().unwrap() as f64;
+                        let m = (1u64 << w) as f64;
+                        let ph = ((a / (m - 1.0) + (a + 1.0) / m) / 2.0) as f32;
                         p.set_phase(ph);
                         extra = format!(",\"arg\":{}", key(ph));
                     }
